@@ -218,6 +218,25 @@ var regModel = porcupine.Model{
 	},
 }
 
+// registryConfig is a configuration fault for the single-task scenarios: the process runs with
+// one checksum service unregistered, or with none (codec.Remove / codec.Clear are public API and
+// the frame encoders explicitly support running without a service).  It returns what it did and
+// a function that restores the four built-in services.
+func registryConfig(c *RunCtx, t *Tape) (string, func()) {
+	switch t.Intn(12) {
+	case 10:
+		name := []string{"CRC16", "CRC32", "SSE_BIN", "SZSE_BIN"}[t.Intn(4)]
+		codec.Remove(name)
+		c.Fire("cfg.service-removed")
+		return "checksum service " + name + " unregistered", restoreBuiltins
+	case 11:
+		codec.Clear()
+		c.Fire("cfg.registry-cleared")
+		return "checksum registry cleared", restoreBuiltins
+	}
+	return "", func() {}
+}
+
 func restoreBuiltins() {
 	codec.Clear()
 	codec.Registry(&codec.Crc16ChecksumService{})
@@ -228,7 +247,7 @@ func restoreBuiltins() {
 
 func init() {
 	register(&scenario{
-		Prop: "C19", Run: runC19, Race: true, Level: "exploration", Quick: 250000, Thorough: 3000000, AbortIsViolation: true,
+		Prop: "C19", Run: runC19, Race: true, RunsPerProcess: 100, Level: "exploration", Quick: 250000, Thorough: 3000000, AbortIsViolation: true,
 		Rule:        "one run = 2-4 client tasks x 1-6 operations over 1-3 algorithm names drawn from {Registry(distinct service object with unique id), Registry(non-service), Get, Remove, Clear} against the real codec registry, optionally pre-populated; a seeded scheduler switches tasks at instrumented statements of codec/checksum.go and at every lock operation (mean preemption gap per run from {never,1,3,10,40} statements), blocked lock waiters are woken in seeded order. Oracles: (i) the recorded history (invoke/return stamped with the scheduler's global event sequence) is linearizable w.r.t. a sequential map model (porcupine; Unknown = inconclusive, never reported); a Get never returns a service registered under another name; (ii) Go race detector with scheduler hand-offs hidden from it, so only the library's own locking orders accesses (a report kills the worker, is attributed, re-executed and reported); (iii) deadlock / unlock-of-unlocked monitor; (iv) all operations complete within the run's step budget. Non-trivial = at least one context switch happened inside an operation and the history was checked; distinct = distinct run fingerprints (tape draws + observed results + interleaving).",
 		Assumptions: []string{"linearizability only: no fairness or lock hand-off order is asserted", "race reports are attributed to the library only when a library frame is on a reported stack"},
 	})
@@ -257,6 +276,14 @@ func runC19(c *RunCtx) {
 			initial[n] = s.id
 		}
 	}
+	untouched := false
+	if t.Intn(4) == 0 {
+		// the four built-in services as package init registered them (ids 1..4 by name)
+		untouched = true
+		names = []string{"CRC16", "CRC32", "SSE_BIN", "SZSE_BIN"}[:1+t.Intn(4)]
+		pre = nil
+		initial = map[string]int{"CRC16": 1, "CRC32": 2, "SSE_BIN": 3, "SZSE_BIN": 4}
+	}
 	plans := make([][]*regOp, ntasks)
 	svcs := map[int]*regSvc{}
 	total := 0
@@ -284,13 +311,38 @@ func runC19(c *RunCtx) {
 		}
 	}
 	sp, sdesc := drawSchedPlan(t)
-	c.Logf("REGISTRY initially %v; %d tasks; scheduler: %s", initial, ntasks, sdesc)
-
-	codec.Clear()
-	for _, s := range pre {
-		codec.Registry(s)
+	// history of the registry before the clients start: usually emptied and pre-populated; or
+	// (untouched) exactly as package init left it, so that the first modification of the process
+	// happens under concurrency; optionally after a long sequential churn of registrations and
+	// removals (counters and thresholds inside the registry)
+	churn := 0
+	switch t.Intn(10) {
+	case 7:
+		churn = []int{63, 127, 255, 256, 511, 1023, 4095}[t.Intn(7)] - t.Intn(7)
+	case 8:
+		churn = 250 + t.Intn(8)
+	case 9:
+		churn = t.Intn(40)
 	}
+	c.Logf("REGISTRY initially %v (untouched since init: %v; sequential churn before the clients: %d register+remove pairs); %d tasks; scheduler: %s", initial, untouched, churn, ntasks, sdesc)
 	defer restoreBuiltins()
+	if !untouched {
+		codec.Clear()
+		for _, s := range pre {
+			codec.Registry(s)
+		}
+	}
+	for i := 0; i < churn; i++ {
+		cs := &regSvc{name: fmt.Sprintf("CHURN_%d", i), id: -2}
+		codec.Registry(cs)
+		codec.Remove(cs.name)
+	}
+	if churn > 0 {
+		c.Fire("hist.registry-churn")
+	}
+	if untouched {
+		c.Fire("hist.registry-untouched-since-init")
+	}
 
 	sched := simrt.NewSched(sp.NextGap, sp.Pick)
 	for ti := range plans {
@@ -308,6 +360,9 @@ func runC19(c *RunCtx) {
 					op.OK = ok
 					if s, isSvc := v.(*regSvc); isSvc && s != nil {
 						op.GotID, op.GotName = s.id, s.name
+					} else if a, isAlgo := v.(interface{ Algorithm() string }); ok && isAlgo {
+						op.GotName = a.Algorithm()
+						op.GotID = map[string]int{"CRC16": 1, "CRC32": 2, "SSE_BIN": 3, "SZSE_BIN": 4}[op.GotName]
 					} else if ok {
 						op.GotID, op.GotName = -1, fmt.Sprintf("%T", v)
 					}
@@ -396,6 +451,11 @@ func runC19(c *RunCtx) {
 	var full []porcupine.Operation
 	for i, s := range pre {
 		full = append(full, porcupine.Operation{ClientId: ntasks, Input: regInput{opRegistry, s.name, s.id}, Call: int64(-100 + 2*i), Output: regOutput{true, 0}, Return: int64(-99 + 2*i)})
+	}
+	if untouched {
+		for i, n := range []string{"CRC16", "CRC32", "SSE_BIN", "SZSE_BIN"} {
+			full = append(full, porcupine.Operation{ClientId: ntasks, Input: regInput{opRegistry, n, i + 1}, Call: int64(-100 + 2*i), Output: regOutput{true, 0}, Return: int64(-99 + 2*i)})
+		}
 	}
 	full = append(full, hist...)
 	c.Oracle("linearizable")
